@@ -18,7 +18,13 @@
    (1)-(3) are quantified over ALL duplicate-free index lists li ri, ALL positional arrays,
    every dimension table (sizes 0 and 1 included); (4)-(6) over every network, every slicing,
    every tree node / every complete tree.  The axis lists li ri pi in (1)-(3) are arbitrary,
-   so they also cover orders produced by sort_contraction_indices. *)
+   so they also cover orders produced by sort_contraction_indices; (4)-(9) use the default
+   per-node axis orders (inds_sub), as Program.node_instr does.
+   (7)-(9) are about the interpreter exec_program itself (the `temps` dictionary with its
+   pops), for the depth-first order and for every order accepted by the checker valid_order_b.
+
+   Not covered here: that the executable definitions tdot / transpose / einsum2 of Program.v
+   agree with numpy (validated on integer arrays by the harness every run), floating point. *)
 From Ctg Require Import Base Net Einsum Program BaseFacts NetFacts SumOver TreeEval ProgramFacts TdotFacts.
 Open Scope Z_scope.
 
